@@ -278,6 +278,24 @@ pub fn triple_alphabet_extra() -> Vec<pc::Def> {
     ]
 }
 
+/// RAM-focused alphabet: every triple is enumerated in both tiers (read / write / re-read of the same
+/// constant address inside one block, through ordinary ops with RAM inputs and outputs).
+pub fn ram_alphabet() -> Vec<pc::Def> {
+    use pc::ExpressionType::*;
+    let r = || v_ram(0x2000, 4);
+    vec![
+        def(Some(v_reg("EAX", 4)), COPY, Some(r()), None, None),
+        def(Some(r()), COPY, Some(v_reg("EAX", 4)), None, None),
+        def(Some(r()), INT_ADD, Some(r()), Some(v_const(1, 4)), None),
+        def(Some(v_reg("ZF", 1)), INT_EQUAL, Some(r()), Some(v_const(0, 4)), None),
+        def(Some(v_reg("EBX", 4)), INT_SUB, Some(v_const(0, 4)), Some(r()), None),
+        def(Some(r()), COPY, Some(v_reg("EBX", 4)), None, None),
+        def(Some(v_reg("EAX", 4)), INT_ADD, Some(v_reg("EAX", 4)), Some(v_reg("EBX", 4)), None),
+        def(Some(v_ram(0x2010, 4)), INT_XOR, Some(r()), Some(v_ram(0x2010, 4)), None),
+        def(None, STORE, Some(v_const(0x1b1, 8)), Some(v_const(0x2000, 8)), Some(v_reg("EBX", 4))),
+    ]
+}
+
 fn jmp(m: pc::JmpType, goto: Option<pc::Label>, call: Option<pc::Call>, cond: Option<pc::Variable>) -> pc::Jmp {
     pc::Jmp { mnemonic: m, goto, call, condition: cond, target_hints: None }
 }
@@ -367,6 +385,14 @@ pub fn all_cases(thorough: bool) -> Vec<BlockCase> {
     for i in 0..n {
         let (a, b, c) = (i / (k * k), (i / k) % k, i % k);
         cases.push(BlockCase { label: format!("triple {a},{b},{c}"), defs: vec![alpha[a].clone(), alpha[b].clone(), alpha[c].clone()], jmps: vec![] });
+    }
+    {
+        let ram = ram_alphabet();
+        let q = ram.len();
+        for i in 0..q * q * q {
+            let idx = [i / (q * q), (i / q) % q, i % q];
+            cases.push(BlockCase { label: format!("ram-triple {idx:?}"), defs: idx.iter().map(|x| ram[*x].clone()).collect(), jmps: vec![] });
+        }
     }
     if thorough {
         // sequences of four over the base alphabet
